@@ -20,12 +20,13 @@ BASE_CONSTS = {
     "Tmax": 7, "Jump": 2, "MaxAuc": 1, "CreateUntil": 1, "StartOffsets": {1}, "Dur": 2, "Templates": {"B1"}, "Bidders": {"u2", "u3"},
     "Prices": {1, 2}, "Amts": {1, 3}, "CapSet": {5}, "MaxBids": 2, "MaxMods": 1, "MaxDon": 0,
     "WithInvalid": False, "WithGenesis": False, "HookVariants": False, "Faults": {0}, "WithQueries": False, "WithParams": False,
+    "Goals": set(), "BidKinds": {"W", "M"},
 }
 
 
 def mc(name, **consts):
     extra = {}
-    for k in ("workers", "heap", "timeout", "coverage", "properties", "module"):
+    for k in ("workers", "heap", "timeout", "coverage", "properties", "module", "tc_max"):
         if k in consts:
             extra[k] = consts.pop(k)
     d = {"name": name, "consts": consts}
@@ -58,7 +59,16 @@ MC_GENESIS_Q = mc("MC_Genesis_q", Templates={"B1", "F1"}, MaxAuc=2, Amts={2}, Pr
 MC_MULTI_Q = mc("MC_Multi_q", Templates={"B0", "F0"}, MaxAuc=2, Amts={2}, Prices={2}, MaxBids=1, Tmax=4, Jump=2)
 
 TC_EXT_Q = mc("TC_Ext_q", Templates={"B5"}, Prices={1, 2}, Amts={2}, MaxBids=3, Tmax=5, Jump=1, CapSet={2, 4}, StartOffsets={0},
-              CreateUntil=0, Dur=2, MaxMods=0, Bidders={"u2"})
+              CreateUntil=0, Dur=2, MaxMods=1, Bidders={"u2"})
+# two bidders whose joint demand at the top price can exceed the supply (a round in which nothing matches after a round with matches)
+TC_EXT2_Q = mc("TC_Ext2_q", Templates={"B5"}, Prices={1, 2}, Amts={3}, MaxBids=3, Tmax=5, Jump=1, CapSet={4}, StartOffsets={0},
+               CreateUntil=0, Dur=2, MaxMods=1, Bidders={"u2", "u3"}, tc_max=3000)
+# goal-directed transition coverage (Goals # {}): large instances of which only the transitions showing a named situation are replayed
+TG_EXT_Q = mc("TG_Ext_q", Templates={"B5"}, Prices={1, 2, 3}, Amts={1, 3}, MaxBids=4, Tmax=3, Jump=1, CapSet={4}, StartOffsets={0},
+              CreateUntil=0, Dur=2, MaxMods=0, Bidders={"u2", "u3"}, BidKinds={"M"},
+              Goals={"rematch_after_empty_round", "empty_round_after_match", "rate_boundary"}, tc_max=2000)
+TG_MULTI_Q = mc("TG_Multi_q", Templates={"F0", "B0"}, MaxAuc=2, Amts={2}, Prices={2}, MaxBids=2, Tmax=3, Jump=2, CapSet={3, 5}, StartOffsets={0},
+                CreateUntil=1, Bidders={"u2"}, BidKinds={"M"}, Goals={"cap_with_other_auction", "two_settle_in_block"}, tc_max=1500)
 TC_FIXEDI_Q = mc("TC_FixedI_q", WithInvalid=True, RejectSample=10, Templates={"F1"}, Amts={1, 3}, MaxBids=1, Tmax=5, Jump=3, CapSet={5}, StartOffsets={0},
                  CreateUntil=0, Bidders={"u2"})
 TC_FIXED_Q = mc("TC_Fixed_q", Templates={"F1", "F3"}, Amts={1, 2, 3}, MaxBids=2, Tmax=7, Jump=2, CapSet={3, 5}, StartOffsets={0, 1}, CreateUntil=1)
@@ -126,7 +136,7 @@ PLANS = {
     "C02": dict(mc=[MC_BATCH_Q, MC_FIXED_Q], gen=GEN_GENERAL + GEN_PARAMS, tc=[TC_EXT_Q, TC_CANCEL_Q], tc_max=2500),
     "C03": dict(mc=[MC_BATCH_Q], gen=GEN_GENERAL, tc=[TC_BATCH_Q, TC_EXT_Q], tc_max=2500),
     "C04": dict(mc=[MC_BATCH_Q, MC_FIXED_Q], gen=GEN_GENERAL, tc=[TC_BATCH_Q, TC_FIXED_Q, TC_FIXEDI_Q], tc_max=2000),
-    "C05": dict(mc=[MC_BATCH_Q, MC_FIXED_Q], gen=GEN_GENERAL, tc=[TC_BATCH_Q, TC_FIXED_Q, TC_MULTIB_Q], tc_max=1500),
+    "C05": dict(mc=[MC_BATCH_Q, MC_FIXED_Q], gen=GEN_GENERAL, tc=[TC_BATCH_Q, TC_FIXED_Q, TC_MULTIB_Q, TG_MULTI_Q], tc_max=1500),
     "C06": dict(mc=[MC_FIXED_Q], gen=GEN_GENERAL, tc=[TC_FIXED_Q, TC_FIXEDI_Q], tc_max=3000),
     "C07": dict(mc=[MC_LIFE_Q, MC_LIFE2_Q],
                 gen=GEN_GENERAL + [dict(g, name=g["name"] + "F", consts=dict(g["consts"], Faults={0, 1, 2, 3, 5, 8})) for g in GEN_MANY],
@@ -136,14 +146,14 @@ PLANS = {
     "C10": dict(mc=[MC_INVALID1_Q, MC_INVALIDF_Q], gen=GEN_GENERAL, tc=[TC_FIXEDI_Q, TC_MODIFY_Q], tc_max=2500),
     "C11": dict(mc=[MC_BATCH_Q], gen=GEN_GENERAL, tc=[TC_MODIFY_Q], tc_max=4000),
     "C12": dict(mc=[MC_INVALID1_Q, MC_INVALIDF_Q], gen=GEN_GENERAL, tc=[TC_CANCEL_Q], tc_max=2500),
-    "C13": dict(mc=[MC_BATCH_Q], gen=GEN_GENERAL + GEN_LONG[1:] + GEN_PARAMS[:1], tc=[TC_EXT_Q], tc_max=12000),
+    "C13": dict(mc=[MC_BATCH_Q], gen=GEN_GENERAL + GEN_LONG[1:] + GEN_PARAMS[:1], tc=[TC_EXT_Q, TC_EXT2_Q, TG_EXT_Q], tc_max=12000),
     "C15": dict(mc=[MC_GENESIS_Q], tc=[TC_GENESIS_Q], tc_max=3000, gen=[dict(g, consts=dict(g["consts"], WithGenesis=True, KindBag=("<-", "BagGenesis"),
                                                  Templates=set(g["consts"]["Templates"]) | {"Bx"})) for g in GEN_GENERAL]),
     "C16": dict(mc=[MC_BATCH_Q, MC_FIXED_Q], tc=[TC_EXT_Q], tc_max=2500,
                 gen=GEN_GENERAL + [dict(g, name=g["name"] + "Q", consts=dict(g["consts"], WithQueries=True, KindBag=("<-", "BagQueries")))
                                    for g in scale(GEN_GENERAL, 0.6)]),
     "C18": dict(mc=[MC_INVALID1_Q, MC_INVALIDF_Q], gen=GEN_GENERAL + GEN_PARAMS, tc=[TC_FIXEDI_Q, TC_MODIFY_Q], tc_max=2500),
-    "C19": dict(mc=[MC_MULTI_Q], gen=GEN_GENERAL, tc=[TC_MULTI_Q, TC_MULTIB_Q], tc_max=4000),
+    "C19": dict(mc=[MC_MULTI_Q], gen=GEN_GENERAL, tc=[TC_MULTI_Q, TC_MULTIB_Q, TG_MULTI_Q], tc_max=4000),
 }
 
 
@@ -179,7 +189,7 @@ MC_GENESIS_T = mc("MC_Genesis_t", Templates={"B1", "F1", "Bx"}, MaxAuc=2, Amts={
 MC_HOOKS_T = mc("MC_Hooks_t", NL=3, HookVariants=True, Templates={"B0", "F0", "B1"}, Amts={2}, Prices={2}, MaxBids=2, Tmax=6, Jump=2,
                 CapSet={5}, StartOffsets={0, 1}, timeout=1500)
 TC_EXT_T = mc("TC_Ext_t", Templates={"B5"}, Prices={1, 2}, Amts={2}, MaxBids=3, Tmax=5, Jump=1, CapSet={2, 4}, StartOffsets={0},
-              CreateUntil=0, Dur=2, MaxMods=0, timeout=1500)
+              CreateUntil=0, Dur=2, MaxMods=1, timeout=1500)
 TC_BATCH_T = mc("TC_Batch_t", Templates={"B1"}, Prices={1, 2, 3}, Amts={1, 3}, MaxBids=2, Tmax=8, Jump=2, StartOffsets={0, 1}, CreateUntil=1,
                 timeout=1500)
 TC_FIXED_T = mc("TC_Fixed_t", WithInvalid=True, RejectSample=20, Templates={"F1", "F3"}, Amts={1, 2, 3}, MaxBids=2, Tmax=7, Jump=2, CapSet={3, 5}, StartOffsets={0, 1}, CreateUntil=1,
@@ -209,7 +219,7 @@ def plan(prop, tier):
         p["gen"] = scale(p.get("gen", []), 10)
         p["tc_max"] = 50000
         p["mc"] = [THOROUGH_MC.get(m["name"], m) for m in p.get("mc", [])]
-        p["tc"] = [THOROUGH_MC.get(m["name"], m) for m in p.get("tc", [])]
+        p["tc"] = [{k: v for k, v in THOROUGH_MC.get(m["name"], m).items() if k != "tc_max"} for m in p.get("tc", [])]
         if "replicas" in p:
             p["replicas"] = 12
     return p
